@@ -111,6 +111,38 @@ class CifModel(WitnessModel):
         return super().sc_array(interp, args, kwargs, node)
 
 
+def written_items(repo, cit, build):
+    """The Chunk / Loop objects handed to their write() when the CIF builder returned by build(interp) is saved: the public
+    classes' own write methods are replaced by recorders, so whatever helpers assemble the items are not consulted by name."""
+    rec = []
+
+    def recorder(interp, args, kwargs, bound):
+        rec.append(bound)
+
+    cit.stubs[repo.func(MOD, 'Loop.write').fq] = recorder
+    cit.stubs[repo.func(MOD, 'Chunk.write').fq] = recorder
+    try:
+        def go(i):
+            c = build(i)
+            return i.call_function(repo.func(MOD, 'CIF.save'), [Sink()], {}, bound=c)
+        outs = cit.run_all(go)
+    finally:
+        cit.stubs.pop(repo.func(MOD, 'Loop.write').fq, None)
+        cit.stubs.pop(repo.func(MOD, 'Chunk.write').fq, None)
+    return outs, rec
+
+
+def item_table(item) -> dict:
+    """name -> value of a Chunk (pairs) or Loop (columns), whatever the attribute that holds them is called."""
+    out = {}
+    if not isinstance(item, SObj):
+        return out
+    for v in item.attrs.values():
+        if isinstance(v, dict) and v and all(isinstance(k, str) for k in v):
+            out.update(v)
+    return out
+
+
 def recovered(orig: str, got: str) -> bool:
     """Strings are recovered up to surrounding blanks."""
     return got == orig or got.strip(' \t\n') == orig.strip(' \t\n')
@@ -260,9 +292,10 @@ def run(tier: str) -> Run:
     block_cls = repo.cls(MOD, 'Block')
     outcomes = {}
     for nm in ['ok', 'two words', 'tab\there', 'nl\nx', 'é']:
-        outs = it.run_all(lambda i, nm=nm: i.construct(block_cls, [nm], {}, None))
+        # the name the block reports through its public property
+        outs = it.run_all(lambda i, nm=nm: i.call_function(repo.func(MOD, 'Block.name'), [], {}, bound=i.construct(block_cls, [nm], {}, None)))
         o = outs[0]
-        outcomes[nm] = o.kind if o.kind == 'raise' else o.value.attrs.get('_name')
+        outcomes[nm] = o.kind if o.kind == 'raise' else o.value
     r2.check(outcomes == {'ok': 'ok', 'two words': 'raise', 'tab\there': 'raise', 'nl\nx': 'raise', 'é': '\\xe9'}, 'block names', loc(repo.func(MOD, 'Block.name.setter')),
              {'outcomes': outcomes}, key='block-name')
     # the file starts with the CIF 1.1 magic line, whichever way the blocks are handed over
@@ -283,8 +316,9 @@ def run(tier: str) -> Run:
 
     # ---- R3 su columns ---------------------------------------------------------------------
     r3 = run.rule('R3', '_su columns are fed by stddevs, value columns by values', 2)
-    pfi = repo.func(MOD, '_make_reduced_powder_loop')
-    kfi = repo.func(MOD, '_make_powder_calibration_loop')
+    cif_cls = repo.cls(MOD, 'CIF')
+    pwhere = where_of(repo, MOD, '_make_reduced_powder_loop', 'CIF.with_reduced_powder_data')
+    kwhere = where_of(repo, MOD, '_make_powder_calibration_loop', 'CIF.with_powder_calibration')
 
     def symbolic_data(i, m, dim, coord_unit, with_coord_var, with_data_var, coords_extra=None):
         ys = []
@@ -306,7 +340,7 @@ def run(tier: str) -> Run:
         return da
 
     def column_terms(loop, name):
-        col = loop.attrs.get('_columns', {}).get(name) if isinstance(loop, SObj) else None
+        col = item_table(loop).get(name)
         its = items_of(col) if isinstance(col, SVar) else None
         return [x.term for x in its] if its is not None else None
 
@@ -315,19 +349,23 @@ def run(tier: str) -> Run:
             T.reset()
             cm = CifModel()
             cit = WitnessInterp(repo, cm)
-            outs = cit.run_all(lambda i, dim=dim, cu=cu, cv=cv, dv=dv: i.call_function(pfi, [symbolic_data(i, cm, dim, cu, cv, dv), 'a comment'], {}))
-            inst = f'_make_reduced_powder_loop[{dim}, coordinate variances={cv}, data variances={dv}]'
-            if len(outs) != 1 or outs[0].kind != 'return' or not isinstance(outs[0].value, SObj):
-                r3.fail(inst, loc(pfi), {'outcomes': [(o.kind, o.exc_type, o.where) for o in outs]}, key='powder-su')
+            def build(i, dim=dim, cu=cu, cv=cv, dv=dv):
+                c = i.construct(cif_cls, [], {'name': 'n'}, None)
+                return i.call_function(repo.func(MOD, 'CIF.with_reduced_powder_data'), [symbolic_data(i, cm, dim, cu, cv, dv)], {'comment': 'a comment'}, bound=c)
+            outs, items = written_items(repo, cit, build)
+            inst = f'with_reduced_powder_data[{dim}, coordinate variances={cv}, data variances={dv}]'
+            loops = [x for x in items if cname in item_table(x)]
+            if len(outs) != 1 or outs[0].kind != 'return' or len(loops) != 1:
+                r3.fail(inst, pwhere, {'outcomes': [(o.kind, o.exc_type, o.where) for o in outs], 'loops_with_the_coordinate_column': len(loops)}, key='powder-su')
                 continue
-            lp = outs[0].value
+            lp = loops[0]
             S_ = lambda n, pos=False: Rat.sym(n, positive=pos)  # noqa: E731
             want = {cname: [S_(f'x{k}') for k in range(3)], 'pd_proc.intensity_norm': [S_(f'y{k}') for k in range(3)]}
             if cv:
                 want[cname + '_su'] = [T.sqrt(S_(f'vx{k}', True)) for k in range(3)]
             if dv:
                 want['pd_proc.intensity_norm_su'] = [T.sqrt(S_(f'vy{k}', True)) for k in range(3)]
-            cols = lp.attrs.get('_columns', {})
+            cols = item_table(lp)
             probs = []
             for name, terms in want.items():
                 got = column_terms(lp, name)
@@ -336,7 +374,7 @@ def run(tier: str) -> Run:
             extra = [k for k in cols if k.endswith('_su') and k not in want]
             if extra:
                 probs.append(f'uncertainty columns without variances: {extra}')
-            r3.check(not probs, inst, loc(pfi), {'problems': probs[:3], 'columns': list(cols)}, key='powder-su')
+            r3.check(not probs, inst, pwhere, {'problems': probs[:3], 'columns': list(cols)}, key='powder-su')
     for dv in (True, False):
         T.reset()
         cm = CifModel()
@@ -350,13 +388,17 @@ def run(tier: str) -> Run:
                 it_.members['dims'] = []
                 items.append(it_)
             return {'power': m.array(i, items, 'cal')}
-        outs = cit.run_all(lambda i, dv=dv: i.call_function(kfi, [symbolic_data(i, cm, 'cal', 'us', False, dv, powers), 'c'], {}))
-        inst = f'_make_powder_calibration_loop[data variances={dv}]'
-        if len(outs) != 1 or outs[0].kind != 'return' or not isinstance(outs[0].value, SObj):
-            r3.fail(inst, loc(kfi), {'outcomes': [(o.kind, o.exc_type, o.where) for o in outs]}, key='calib-su')
+        def build(i, dv=dv):
+            c = i.construct(cif_cls, [], {'name': 'n'}, None)
+            return i.call_function(repo.func(MOD, 'CIF.with_powder_calibration'), [symbolic_data(i, cm, 'cal', 'us', False, dv, powers)], {'comment': 'c'}, bound=c)
+        outs, items = written_items(repo, cit, build)
+        inst = f'with_powder_calibration[data variances={dv}]'
+        loops = [x for x in items if 'pd_calib_d_to_tof.coeff' in item_table(x)]
+        if len(outs) != 1 or outs[0].kind != 'return' or len(loops) != 1:
+            r3.fail(inst, kwhere, {'outcomes': [(o.kind, o.exc_type, o.where) for o in outs], 'calibration_loops': len(loops)}, key='calib-su')
             continue
-        lp = outs[0].value
-        cols = lp.attrs.get('_columns', {})
+        lp = loops[0]
+        cols = item_table(lp)
         got_v, got_su = column_terms(lp, 'pd_calib_d_to_tof.coeff'), column_terms(lp, 'pd_calib_d_to_tof.coeff_su')
         ok = got_v is not None and all(isinstance(g, Rat) and g.eq(Rat.sym(f'y{k}')) for k, g in enumerate(got_v))
         if dv:
@@ -365,33 +407,35 @@ def run(tier: str) -> Run:
             ok = ok and 'pd_calib_d_to_tof.coeff_su' not in cols
         ids = cols.get('pd_calib_d_to_tof.id')
         ids_v = [x.members.get('concrete') for x in (items_of(ids) or [])] if isinstance(ids, SVar) else getattr(ids, 'members', {}).get('py_values')
-        r3.check(ok and ids_v == ['ZERO', 'DIFC', 'DIFA'], inst, loc(kfi), {'columns': list(cols), 'ids': ids_v}, key='calib-su')
+        r3.check(ok and ids_v == ['ZERO', 'DIFC', 'DIFA'], inst, kwhere, {'columns': list(cols), 'ids': ids_v}, key='calib-su')
 
     # ---- R4 author ids ----------------------------------------------------------------------
     r4 = run.rule('R4', 'author ids are unique across both author categories; every role id is an author id', 3)
-    cif_cls = repo.cls(MOD, 'CIF')
-    afi = repo.func(MOD, 'CIF._assemble_authors')
+    awhere = where_of(repo, MOD, 'CIF._assemble_authors', 'CIF.save')
     cases = {
         'contact+regular, all with roles': [Person('A', 'lead', True), Person('B', 'dev'), Person('C', 'pi')],
         'two contacts, one regular without role': [Person('A', 'lead', True), Person('B', None, True), Person('C', 'x'), Person('D')],
         'single contact and single regular': [Person('A', 'lead', True), Person('B', 'dev')],
     }
     for label, people in cases.items():
-        def go(i, people=people):
+        def build(i, people=people):
             c = i.construct(cif_cls, [], {'name': 'n'}, None)
-            c.attrs['_authors'] = list(people)
-            return i.call_function(afi, [], {}, bound=c)
-        outs = [o for o in it.run_all(go) if o.kind == 'return']
-        ok = len(outs) >= 1 and all(isinstance(o.value, list) for o in outs)
+            return i.call_function(repo.func(MOD, 'CIF.with_authors'), list(people), {}, bound=c)
+        T.reset()
+        acm = CifModel()
+        ait = WitnessInterp(repo, acm)
+        outs, items = written_items(repo, ait, build)
+        outs = [o for o in outs if o.kind == 'return']
+        ok = len(outs) >= 1
         detail = {'outcomes': [(o.kind, o.exc_type, o.where) for o in outs]}
-        for out in (outs if ok else []):
+        if ok:
             ids, role_ids = [], []
-            for item in out.value:
-                if not isinstance(item, SObj):
-                    continue
-                data = item.attrs.get('_pairs') if item.cls.name == 'Chunk' else item.attrs.get('_columns')
-                for key, val in (data or {}).items():
-                    vals = val if isinstance(val, list | tuple) else getattr(val, 'members', {}).get('py_values', [val])
+            for item in items:
+                for key, val in item_table(item).items():
+                    if isinstance(val, SVar):
+                        vals = [x.members.get('concrete') for x in (items_of(val) or [])] or val.members.get('py_values', [val])
+                    else:
+                        vals = val if isinstance(val, list | tuple) else [val]
                     if key.endswith('author.id'):
                         ids += list(vals)
                     if key == 'audit_author_role.id':
@@ -399,5 +443,5 @@ def run(tier: str) -> Run:
             n_roles = sum(1 for p in people if p.role)
             ok = ok and len(ids) == len(set(ids)) == len(people) and len(role_ids) == n_roles and set(role_ids) <= set(ids)
             detail = {'author_ids': ids, 'role_ids': role_ids, 'authors': len(people), 'with_role': n_roles}
-        r4.check(ok, label, loc(afi), detail, key='author-ids')
+        r4.check(ok, label, awhere, detail, key='author-ids')
     return run
